@@ -34,12 +34,23 @@ def main():
                  'quant-short': 6, 'quant-ident': 6, 'cast-cond': 6, 'regex-rewrite': 3}
         tpl = templates.thin(tpl, quota, rnd)
     ck.extra['templates'] = len(tpl)
-    ck.run_units([(name, templates.render(rule)) for _, name, rule in tpl], run_unit)
+    ck.run_units([('@cache-keys', None)] + [('@conditions', n) for n in range(1, 5)] + [(name, templates.render(rule)) for _, name, rule in tpl], run_unit)
     ck.finish('panic reachability on real solver MIR for every accepted template rule x optimiser output, documents symbolic')
 
 
 def run_unit(ck, unit):
     name, yaml = unit
+    if name == '@cache-keys':
+        # Cache::find's expect()/index on the synthetic matrix keys: every column index a matrix can have
+        import C16
+        C16.cache_keys(ck)
+        return
+    if name == '@conditions':
+        # (a) conditions derived from the parser's own paths: accepted ones must have predicate operands (C05 run), and a rule
+        # that leaves one of their identifiers undefined must be rejected at load
+        import C05
+        C05.conditions_unit(ck, ck.program(), yaml)
+        return
     quick = ck.tier == 'quick'
     br = ck.bridge()
 
